@@ -104,7 +104,7 @@ def d1_contiguity(ctx, RA, step, appenders):
                        detail='the start of the new index row is not the previous committed end of the values array '
                               '(e.g. the number of stored numbers instead of the number of value rows): rows are no '
                               'longer contiguous for non-empty atoms')
-    ctx.floor('C05 calls of the append step', n, 2)
+    ctx.floor('C05 calls of the append step', n, 1)
     # creation: first row [[0, len(first)]], loop rows [valueslen, valueslen + returned count]
     f = ctx.repo.func('raggedarray.asraggedarray')
     creates = []
@@ -256,7 +256,7 @@ def d3_descriptor_updates(ctx, RA, committer, step):
                        'R-ORDER', 'D3', f, u, 'after-both-commits',
                        f'{f.qualname}: the top-level descriptor is updated after both sub-array length changes',
                        detail='descriptor values are read before a sub-array length changed')
-    ctx.floor('C05 length-changing sites in ragged operations', n, 8)
+    ctx.floor('C05 length-changing sites in ragged operations', n, 6)
 
 
 def d4_cutpoint(ctx):
